@@ -18,7 +18,9 @@ RULE = (
     "constructor argument or none, _key_filename assignments to sub-configurations at three points of the "
     "history (before the values, before the save, after a first save), class-level key files of the config "
     "types, none => default key file in the sandbox HOME; non-empty plaintexts (short, long, Unicode, whitespace, "
-    "look-alike); method aes/xor/best per field; one of the 5 formats). A model predicts the key file of every "
+    "look-alike); method aes/xor/best per field; one of the 5 formats; optionally a final stage in which the key files "
+    "get new content on disk, possibly after a save that failed on broken key files, and the same configuration "
+    "object is saved again). A model predicts the key file of every "
     "configuration: nearest ancestor (or itself) that names one, else the default. Oracle: (structure) the saved "
     "document, decoded independently (json / yaml.safe_load / pickle / bson / XML), carries at every secret "
     "position {method in {aes,xor}, ciphertext: base64} and the REFERENCE cipher under the bytes of the "
@@ -34,7 +36,7 @@ ASSUMPTIONS = [
     "a key file assigned to a *schema* sub-configuration does not survive a load that replaces that "
     "sub-configuration (recorded known finding); such plans are labelled so the signature stays narrow",
 ]
-REQUIRED = ["secret:typed-list-item", "secret:typed-dict-entry", "plan:root-key", "plan:default", "plan:sub-assign", "plan:class-key", "plan:rekey", "secret:root", "secret:depth3",
+REQUIRED = ["secret:typed-list-item", "secret:typed-dict-entry", "plan:root-key", "plan:default", "plan:sub-assign", "plan:class-key", "plan:rekey", "plan:rotate", "plan:rotate-after-failed-save", "secret:root", "secret:depth3",
             "secret:configtype", "secret:list-item", "secret:ct-list-item", "default-key-must-not-exist"] + ["fmt:" + f for f in trees.FORMATS]
 LEVEL_TEXT = (
     "Generated key-file plans x secret placements x formats with a model of key inheritance, an independent "
@@ -76,6 +78,7 @@ def strategy(tier):
         # a class-level key may be the very file the enclosing configuration resolves to (kroot)
         "class_keys": st.fixed_dictionaries({"T": st.sampled_from([None, None, "kT", "kroot"]), "TI": st.sampled_from([None, None, "kTI", "kroot"])}),
         "rekey_root": st.sampled_from([None, None, "kroot2"]),
+        "rotate": st.sampled_from([None, "plain", "after-failed-save", "after-failed-save"]),
         "methods": st.lists(st.sampled_from(["aes", "xor", "best"]), min_size=10, max_size=10),
     })
 
@@ -417,3 +420,44 @@ def run_case(case, R):
                     R.fail("save-raises", fmt + ":rekey", "dumps after re-keying raised %r" % (exc,))
                     return
             check_saved(data2, assigned, "rekey", rec3)
+
+        # ---- the key files get new content on disk (rotation); optionally after a save that failed on a broken key file ----
+        if case.get("rotate"):
+            kfiles = sorted(p for p in set(predicted(assigned).values()) if os.path.isfile(p))
+            if not kfiles:
+                return
+            R.label("plan:rotate")
+            if not ever["default"] and os.path.exists(home_default) and home_default not in kfiles:
+                os.unlink(home_default)
+            if case["rotate"] == "after-failed-save":
+                saved = {}
+                for p in kfiles:
+                    with open(p, "rb") as fp:
+                        saved[p] = fp.read()
+                    with open(p, "wb") as fp:
+                        fp.write(b"not a key")
+                try:
+                    cfg.dumps(fmt)
+                    failed = False
+                except Exception:
+                    failed = True
+                for p, content in saved.items():
+                    with open(p, "wb") as fp:
+                        fp.write(content)
+                if failed:
+                    R.label("plan:rotate-after-failed-save")
+                try:
+                    cfg.dumps(fmt)  # the key files are whole again: this save succeeds
+                except Exception as exc:
+                    R.fail("save-raises", fmt + ":after-repair", "dumps after the key files were repaired raised %r" % (exc,))
+                    return
+            for n, p in enumerate(kfiles):
+                with open(p, "wb") as fp:
+                    fp.write(bytes((17 * n + 5 * j + 3) % 256 for j in range(32)))
+            with sandbox.Recorder() as rec4:
+                try:
+                    data3 = cfg.dumps(fmt)
+                except Exception as exc:
+                    R.fail("save-raises", fmt + ":rotated", "dumps after the key files were rotated raised %r" % (exc,))
+                    return
+            check_saved(data3, assigned, "rotated", rec4)
